@@ -3,6 +3,8 @@ package message
 import (
 	"context"
 	"sync"
+
+	"github.com/ThreeDotsLabs/watermill/internal/verifhook"
 )
 
 // MessageTransformSubscriberDecorator creates a subscriber decorator that calls transform
@@ -55,6 +57,7 @@ func (t *messageTransformSubscriberDecorator) Subscribe(ctx context.Context, top
 	go func() {
 		for msg := range in {
 			t.transform(msg)
+			verifhook.Point("decorator.sub.before_out", msg.UUID)
 			select {
 			case out <- msg:
 			case <-t.closing:
